@@ -141,7 +141,6 @@ PROBES = [
     ("compound-end-excludes-trailing-semicolon", "m", "if a:\n    b;\nc\n"),
     ("namedexpr-range-excludes-value-parentheses", "m", "(y := (x))\n"),
     ("argwithdefault-range-excludes-default-closing-parenthesis", "m", "def f(a=(1)): pass\n"),
-    ("lambda-empty-arguments-range", "m", "lambda: 1\n"),
 ]
 
 
@@ -264,8 +263,10 @@ def extents(b, tree):
                 kids = [x for f in ("posonlyargs", "args", "vararg", "kwonlyargs", "kwarg") for x in _sub_nodes(fd[f])]
                 if not kids:
                     if parent and parent[0] == "ExprLambda":
-                        if a != e:
-                            bad = "lambda without parameters: Arguments must be empty text"
+                        # repaired in /repo ("the empty parameter list of a lambda is ranged as the empty text after
+                        # the keyword"): the empty text right behind `lambda`
+                        if a != e or b[parent[1][0]:a] != b"lambda":
+                            bad = "lambda without parameters: Arguments must be the empty text behind the keyword"
                     elif not re.fullmatch(rb"\((?:[ \t\f\r\n]|#[^\r\n]*|\\\r?\n)*\)", text):
                         bad = "empty parameter list must be the parentheses"
                 else:
@@ -350,8 +351,6 @@ def classify_extent(item, node, parent, b):
             k = b[a:e].count(b"(") - b[a:e].count(b")")
             if k > 0 and re.match(rb"(?:" + _WS + rb"*\)){%d}" % k, b[e:]) and (b"'" not in b[a:e] and b'"' not in b[a:e] and b"#" not in b[a:e]):
                 return "argwithdefault-range-excludes-default-closing-parenthesis"
-    if kind == "Arguments" and parent and parent[0] == "ExprLambda" and node[1] == parent[1]:
-        return "lambda-empty-arguments-range"
     return None
 
 
@@ -1339,7 +1338,9 @@ def streams(ctx):
               "def f(a, /, b, *c, d, **e): pass\n", "lambda a, *b: a\n", "with a as b, c: pass\n", "with (a as b, c as d): pass\n",
               # repaired (ArgWithDefault did not include its default): regressions are violations
               "def f(a=1): pass\n", "def f(a, b=1, /, c=2, *d, e=3, **g): pass\n", "def f(a: int = 1, *, b: 'é' = 'ü'): pass\n", "lambda a=1: a\n",
-              "lambda a, b=2, *, c=3: a\n", "def f(a =\n 1): pass\n", "def f(a=b if c else d, e=lambda: 0): pass\n", "async def f(a=[1, 2], b={}): pass\n",
+              "lambda a, b=2, *, c=3: a\n",
+              # repaired (the empty Arguments of a parameterless lambda had the range of the whole lambda): regressions are violations
+              "lambda: 1\n", "x = lambda: 1\n", "f(lambda : (yield), lambda:0)\n", "lambda\\\n : 1\n", "(lambda # c\n : 1)\n", "def f(a =\n 1): pass\n", "def f(a=b if c else d, e=lambda: 0): pass\n", "async def f(a=[1, 2], b={}): pass\n",
               # repaired (with-items of a parenthesised list without `as` shared one range): regressions are violations
               "with (a, b): pass\n", "with (a, b,): pass\n", "with ((a), b): pass\n", "with ( a ,\n  b ): pass\n", "with (a, b, c.d(e)): pass\n",
               "async def f():\n async with (a, b): pass\n", "with (é, 'ü'): pass\n", "with (a): pass\n", "with (a,): pass\n", "with (a, b) as c: pass\n",
